@@ -78,3 +78,18 @@ Fixpoint ends_lf (d : bool) (m : bytes) : bool :=
 
 Definition lower (c : N) : N := if (65 <=? c) && (c <=? 90) then c + 32 else c.
 Definition lowers (s : bytes) : bytes := map lower s.
+
+(* lines of a byte string: each LF-terminated piece without its LF; a non-empty unterminated tail
+   is a line too *)
+Fixpoint split_lines_aux (cur : bytes) (s : bytes) : list bytes :=
+  match s with
+  | [] => match cur with [] => [] | _ => [rev cur] end
+  | c :: s' => if c =? LF then rev cur :: split_lines_aux [] s' else split_lines_aux (c :: cur) s'
+  end.
+Definition split_lines (s : bytes) : list bytes := split_lines_aux [] s.
+Definition join_lines (ls : list bytes) : bytes := concat (map (fun l => l ++ [LF]) ls).
+
+
+(* the message as delivered: a final newline is added if missing *)
+Definition msg_plus (msg : bytes) : bytes := join_lines (split_lines msg).
+
